@@ -146,7 +146,12 @@ def _run_unit_once(unit, rlimit, vacuity, degrade):
     res['functions'] = [{'function': f['function'], 'mode': f.get('mode:'), 'ms': f.get('time'), 'success': f.get('success')} for f in fb]
     res['obligations'] = len(fb)
     res['discharged'] = sum(1 for f in fb if f.get('success'))
-    if j is None or vres.get('encountered-vir-error') or (not fb and errors):
+    # rustc errors raised after verification (trait items, borrow check, lifetimes: `error[E....]`): the generated file is not valid
+    # Rust on this tree, so whatever was verified is not a verdict => undecided (functions are degraded when every error lies inside one)
+    compile_errs = [d for d in errors if (d.get('code') or {}).get('code', '').startswith('E')]
+    if j is None or vres.get('encountered-vir-error') or (not fb and errors) or compile_errs:
+        if compile_errs:
+            errors = compile_errs
         # compile / unsupported construct / internal error => undecided
         msgs = [d.get('message', '') for d in errors][:5]
         res['reason'] = 'verus did not reach verification: ' + ' | '.join(msgs) if msgs else 'verus produced no result: ' + r['stderr'][-400:]
